@@ -1,6 +1,7 @@
 \* roots (thorough): 1..3 shards x every per-shard behaviour x every completion order x the context ending at any point; check and export
 CONSTANTS
   ShardLists <- MCListPerLength
+  Deployments <- MCDepClassic
   Instants = {0, 1, 2, 3, 4}
   Scenes = {"roots"}
   ChainKinds = {"x509", "precert", "precertPreIssuer"}
